@@ -392,7 +392,16 @@ def run(ctx):
         if id_span and slot_span:
             ctx.ob("EQUIP", "slice-roles", roles.get("parse") == id_span[0][:2] and roles.get("get_slot_from_abbreviation") == slot_span[0][:2], f"slices consumed: {roles}; id at {id_span[0][:2]}, slot at {slot_span[0][:2]}", db.file, db.line)
 
-    # ---- ORD
+    # ---- ORD: equality of repositories is equality of their names (the order above is only total together with it)
+    eqb = prog.body("<repository::Repository as std::cmp::PartialEq>::eq")
+    if eqb:
+        eq_calls = [(t_.get("res") or "") for _bi, t_ in eqb.calls() if "PartialEq" in (t_.get("res") or "")]
+        neg_ = any(c_.split("::")[-1] == "ne" for c_ in eq_calls) or any((s_.get("rv") or {}).get("k") == "un" and s_["rv"].get("op") == "Not" for _b, _s, s_ in eqb.stmts())
+        from ..prov import derive as _dvq, index_of as _ixq
+
+        qix = _ixq(eqb)
+        on_name = any("name" in _dvq(qix, a_).names for _bi, t_ in eqb.calls() if "PartialEq" in (t_.get("res") or "") for a_ in t_["args"])
+        ctx.ob("ORD", "eq|names-equal", bool(eq_calls) and on_name and not neg_, f"Repository == Repository compares {'the names' if on_name else 'something else'} with {[c_.split('::')[-1] for c_ in eq_calls]}, negated: {neg_}; two repositories are equal exactly when their names are", eqb.file, eqb.line)
     cb = prog.body("<repository::Repository as std::cmp::Ord>::cmp")
     if not cb:
         ctx.fail_closed("ORD", "Ord for Repository not found")
